@@ -12,6 +12,7 @@ func init() {
 			return []specRef{
 				hsd(rootPkg, "VerifC05_poolCancel", nil, q(tier, 3, 5), 3000000, 1800, "returned"),
 				hsd(rootPkg, "VerifC05_poolRetry", nil, q(tier, 3, 5), 3000000, 1800, "cancelled", "gotwire"),
+				hsd(rootPkg, "VerifC05_poolTwoWaiters", nil, q(tier, 3, 4), 3000000, 3000, "cancelled", "gotwire"),
 				hsd(rootPkg, "VerifC05_cacheWait", nil, q(tier, 3, 4), 3000000, 1800, "cancelled", "delivered", "failed"),
 				hsd(rootPkg, "VerifC05_pipeCtx", nil, q(tier, 2, 3), 3000000, 3000, "returned"),
 				hsd(rootPkg, "VerifC05_pipeDone", nil, q(tier, 2, 3), 3000000, 3000, "nothing"),
